@@ -77,20 +77,20 @@ func (s *Service) CreatePin(ctx context.Context, ref boson.Address, traverse boo
 		return nil
 	}
 
+	key := rootPinKey(ref)
+	switch err := s.rhStorage.Get(key, new(boson.Address)); {
+	case err == nil:
+		return nil // already pinned
+	case !errors.Is(err, storage.ErrNotFound):
+		return fmt.Errorf("unable to pin %q: %w", ref, err)
+	}
+
 	if traverse {
 		if err := s.traverser.Traverse(ctx, ref, iterFn); err != nil {
 			return fmt.Errorf("traversal of %q failed: %w", ref, err)
 		}
 	}
-
-	key := rootPinKey(ref)
-	switch err := s.rhStorage.Get(key, new(boson.Address)); {
-	case errors.Is(err, storage.ErrNotFound):
-		return s.rhStorage.Put(key, ref)
-	case err != nil:
-		return fmt.Errorf("unable to pin %q: %w", ref, err)
-	}
-	return nil
+	return s.rhStorage.Put(key, ref)
 }
 
 // DeletePin implements Interface.DeletePin method.
@@ -105,6 +105,13 @@ func (s *Service) DeletePin(ctx context.Context, ref boson.Address) error {
 			// Continue un-pinning all chunks.
 		}
 		return nil
+	}
+
+	switch err := s.rhStorage.Get(rootPinKey(ref), new(boson.Address)); {
+	case errors.Is(err, storage.ErrNotFound):
+		return nil // not pinned
+	case err != nil:
+		return fmt.Errorf("unable to unpin %q: %w", ref, err)
 	}
 
 	if err := s.traverser.Traverse(ctx, ref, iterFn); err != nil {
